@@ -164,6 +164,7 @@ CHECKS = {
         "tests": [
             {"name": "TestC15", "quick": 16000, "thorough": 900000},
             {"name": "TestC15API", "quick": 3000, "thorough": 60000},
+            {"name": "TestC15Large", "kind": "plain", "quick": 1, "thorough": 1, "shards": {"quick": 1, "thorough": 1}},
         ],
     },
     "C19": {
@@ -339,14 +340,16 @@ CHECKS = {
                 "Non-trivial = a row with >=3 changes and the dispatcher lagging >=2 events at some point; distinct = hash of (schema kinds, "
                 "schedule word, handlers).",
         "assumptions": COMMON_ASSUMPTIONS + [
-            "fewer events outstanding than the 65536-entry buffer (the documented overflow exemption is not exercised)",
+            "generated histories keep fewer events outstanding than the 65536-entry buffer; TestC14Overflow overflows it once on purpose and checks that drops stop when it has free slots again",
             "handlers of one cache share the event's model objects; only isolation from the cache is required (C13)",
         ],
         "level_text": "exploration: generated notification histories x dispatcher schedules owned by the harness, under the race detector",
         "level_note": "the interleaving of the two goroutines is controlled only through the handler gate; finer schedules are the Go scheduler's",
         "technique": "property-based testing (rapid): history replay oracle over event logs, harness-gated schedules, race detector as instrumented oracle",
         "race": True,
-        "tests": [{"name": "TestC14", "quick": 6000, "thorough": 300000}],
+        "tests": [{"name": "TestC14", "quick": 6000, "thorough": 300000},
+                  {"name": "TestC14Overflow", "kind": "plain", "quick": 1, "thorough": 1, "shards": {"quick": 1, "thorough": 1}},
+                  {"name": "TestC14Client", "quick": 120, "thorough": 3000}],
     },
     "C01": {
         "rule": "wire level: a generated schema, libovsdb's server on a unix socket, a plain writer client and 1-2 monitoring clients with 1-2 "
